@@ -65,6 +65,12 @@ Proof.
   destruct H as [->|H]; [rewrite Hp; cbn; lia|]. specialize (IH _ H Hp). destruct (p x); cbn; lia.
 Qed.
 
+Lemma in_cntl_pos_c : forall p (l : list cpc) x, In x l -> p x = true -> 1 <= cnt p l.
+Proof.
+  unfold cnt. induction l as [|h t IH]; cbn; intros x H Hp; [tauto|].
+  destruct H as [->|H]; [rewrite Hp; cbn; lia|]. specialize (IH _ H Hp). destruct (p h); cbn; lia.
+Qed.
+
 Lemma Forall_upd : forall A (P : A -> Prop) l i x, Forall P l -> P x -> Forall P (upd l i x).
 Proof.
   induction l as [|h t IH]; intros i x H Hx; cbn; [destruct i; constructor|].
@@ -171,6 +177,7 @@ Ltac rw_out :=
          | E : oSd ?c = _, H : context [oSd ?c] |- _ => rewrite E in H
          | E : oCl ?c = _ |- context [oCl ?c] => rewrite E
          | E : oCl ?c = _, H : context [oCl ?c] |- _ => rewrite E in H
+         | E : agg_nonnil ?c = _ |- context [agg_nonnil ?c] => rewrite E
          end.
 
 (* callers unchanged or one caller updated, global fields fin/sta/body possibly advanced *)
@@ -196,106 +203,141 @@ Ltac cnt_facts cl i pc x En :=
   pose proof (cnt_upd is_sbody cl i pc x En);
   pose proof (cnt_upd is_closepc cl i pc x En).
 
+(* each goal is solved from the few hypotheses that concern it (lia is slow on the full context) *)
+Ltac cnt_goal Jcfg :=
+  match goal with
+  | |- cntl ?p ?ls + _ = _ =>
+      match goal with
+      | H : cntl p ls = _ |- _ =>
+          let J := fresh "J" in
+          pose proof Jcfg as J; unfold pcs_cfg_ok in J; cbn in J; rw_out; cbn in J; clear - H J; cbn in *; lia
+      end
+  | |- cntl ?p ?ls = _ =>
+      match goal with
+      | H : cntl p ls = _ |- _ =>
+          let J := fresh "J" in
+          pose proof Jcfg as J; unfold pcs_cfg_ok in J; cbn in J; rw_out; cbn in J; clear - H J; cbn in *; lia
+      end
+  end.
+
+Ltac callers_goal Inil Isb Iclose :=
+  repeat match goal with H : cnt _ (upd _ _ _) + _ = _ |- _ => revert H end;
+  clear - Inil Isb Iclose; intros; cbn in *; lia.
+
 Ltac t_fin :=
-  cbn in *; rewrite ?cntl_snoc; cbn in *; rw_out; cbn in *;
-  try assumption; try reflexivity; try lia.
+  cbn in *; rewrite ?cntl_snoc; cbn in *; rw_out; cbn in *; rewrite ?Nat.add_0_r;
+  try assumption; try reflexivity.
+
+Ltac ctx_goal Ictx :=
+  let Hc := fresh "Hc" in
+  intros Hc;
+  first [ solve [left; lia]
+        | destruct (Ictx Hc) as [?|[?|?]]; [left; lia | right; left; lia | right; right; lia] ].
+
+Ltac fin Jcfg Inil Isb Iclose :=
+  constructor; t_fin;
+  try solve [callers_tac]; try solve [cnt_goal Jcfg]; try solve [callers_goal Inil Isb Iclose];
+  try solve [match goal with Ictx : _ -> _ \/ _ \/ _ |- _ -> _ \/ _ \/ _ => ctx_goal Ictx end].
 
 Lemma tinv_step : forall c ls s l s', SInv c s -> TInv c ls s -> step c s l = Some s' -> TInv c (ls ++ [l]) s'.
 Proof.
   intros c ls s l s' SI I H.
-  pose proof (sinv_step _ _ _ _ SI H) as SI'.
   destruct s as [fr ff fs b cs cd pd ss es ms w e eh0 sd0 mn0 cl].
   destruct SI as [Jrun Jfin Jsta Jcancel Jsd Jeh Jmain Jeh0 Jsd0 Jmn0 Jwg Jge Jgm Jgs Jgc Jcfg Jec].
   destruct I as [Ic Ibrun Ierun Ibsd Iesd Ibcl Iecl Ibeh Ictx Ipar Iclose Inil Isb Isret].
   cbn in *.
   destruct l as [k | t | p | p | i r | h i | | ]; cbn in H.
   - (* LInv *)
-    inv H. constructor; cbn; rewrite ?cntl_snoc, ?cnt_snoc; cbn; try assumption; try (destruct k; cbn; lia).
+    inv H. constructor; cbn; rewrite ?cntl_snoc, ?cnt_snoc; cbn; rewrite ?Nat.add_0_r; try assumption.
     + apply Forall_app; split; [assumption|]. constructor; [|constructor]. destruct k; exact I.
     + intros Hc. destruct (Ictx Hc) as [?|[?|?]]; [left|right;left|right;right]; lia.
-    + intros Hc. specialize (Ipar Hc). lia.
-    + intros Hc. apply Isret. destruct k; cbn in Hc; lia.
+    + clear - Iclose. destruct k; cbn; lia.
+    + clear - Inil. destruct k; cbn; lia.
+    + clear - Isb. destruct k; cbn; lia.
   - (* LTau *)
     destruct t as [i | | | ]; cbn in H.
     + (* caller *)
       unfold step_caller in H; cbn in H.
       destruct (nth_error cl i) as [pc|] eqn:En; [|discriminate].
+      pose proof (Forall_nth _ _ _ _ _ Ic En) as Hs.
       destruct pc; try discriminate; cbn in H.
-      * (* S0 *) destruct ff eqn:Eff; inv H; cnt_facts cl i S0 (SRet SReturned) En; cnt_facts cl i S0 S1 En;
-          constructor; t_fin; callers_tac.
+      * (* S0 *) destruct ff eqn:Eff; inv H; [cnt_facts cl i S0 (SRet SReturned) En | cnt_facts cl i S0 S1 En];
+          fin Jcfg Inil Isb Iclose.
       * (* S1 *) destruct b; try discriminate; inv H.
-        -- cnt_facts cl i S1 SBody En. constructor; t_fin; callers_tac.
-        -- cnt_facts cl i S1 (SRet SAlready) En. constructor; t_fin; callers_tac.
+        -- cnt_facts cl i S1 SBody En. fin Jcfg Inil Isb Iclose; try solve [intros; lia].
+        -- cnt_facts cl i S1 (SRet SAlready) En. fin Jcfg Inil Isb Iclose.
       * (* SBody *)
         unfold step_body in H; cbn in H.
-        destruct b; try discriminate; inv H; try (constructor; t_fin; callers_tac).
-        cnt_facts cl i SBody (SRet SNil) En. constructor; t_fin; callers_tac.
-      * (* W0 *) destruct ff eqn:Eff; inv H; cnt_facts cl i W0 W3 En; cnt_facts cl i W0 W1 En; constructor; t_fin; callers_tac.
-      * (* W1 *) destruct fs eqn:Efs; inv H; cnt_facts cl i W1 W2 En; cnt_facts cl i W1 (WRet WNotStarted) En; constructor; t_fin; callers_tac.
-      * (* W2 *) destruct w; [|discriminate]. inv H. cnt_facts cl i W2 W3 En. constructor; t_fin; try callers_tac.
-        pose proof (Forall_nth _ _ _ _ _ Ic En) as Hs; cbn in Hs.
+        destruct b; try discriminate; inv H; try solve [fin Jcfg Inil Isb Iclose; intros; first [lia | tauto]].
+        (* B9 *) cnt_facts cl i SBody (SRet SNil) En. fin Jcfg Inil Isb Iclose; try solve [intros; lia].
+      * (* W0 *) destruct ff eqn:Eff; inv H; [cnt_facts cl i W0 W3 En | cnt_facts cl i W0 W1 En]; fin Jcfg Inil Isb Iclose.
+      * (* W1 *) destruct fs eqn:Efs; inv H; [cnt_facts cl i W1 W2 En | cnt_facts cl i W1 (WRet WNotStarted) En]; fin Jcfg Inil Isb Iclose.
+      * (* W2 *) destruct w; [|discriminate]. inv H. cnt_facts cl i W2 W3 En. fin Jcfg Inil Isb Iclose.
+        apply Forall_upd; [assumption|]. cbn in *.
         pose proof (adds_facts b); pose proof (done_e_facts eh0); pose proof (done_d_facts sd0); pose proof (done_m_facts mn0).
-        lia.
+        clear - Hs Jwg H2 H3 H4 H5. lia.
       * (* W3 *) inv H. cnt_facts cl i W3 (WRet (resolve (ec_of c mn0 sd0 eh0))) En.
-        pose proof (Forall_nth _ _ _ _ _ Ic En) as Hs; cbn in Hs.
-        assert (Hw : wres_ok c (resolve (ec_of c mn0 sd0 eh0))) by (apply resolve_ok; lia).
-        constructor; t_fin; try callers_tac.
-        destruct (resolve (ec_of c mn0 sd0 eh0)); cbn; auto.
-      * (* C0 *) destruct fr eqn:Efr; inv H; cnt_facts cl i C0 C1 En; cnt_facts cl i C0 CRet En; constructor; t_fin; callers_tac.
-      * (* C1 *) destruct cs eqn:Ecs; inv H; cnt_facts cl i C1 C2 En; cnt_facts cl i C1 CRet En; constructor; t_fin; callers_tac.
-      * (* C2 *) inv H. cnt_facts cl i C2 CRet En. constructor; t_fin; try callers_tac.
-        intros _. right. left. cbn in *. lia.
-      * (* R0 *) destruct fr eqn:Efr; inv H; cnt_facts cl i R0 R1 En; cnt_facts cl i R0 (RRet false) En; constructor; t_fin; callers_tac.
-      * (* R1 *) inv H. cnt_facts cl i R1 (RRet (negb (13 <=? mrank mn0))) En. constructor; t_fin; callers_tac.
+        cbn in Hs.
+        assert (Hw : wres_ok c (resolve (ec_of c mn0 sd0 eh0))) by (apply resolve_ok; [clear - Hs; lia | apply Jgm; clear - Hs; lia]).
+        fin Jcfg Inil Isb Iclose.
+        apply Forall_upd; [assumption|]. cbn. destruct (resolve (ec_of c mn0 sd0 eh0)); cbn in *; auto.
+      * (* C0 *) destruct fr eqn:Efr; inv H; [cnt_facts cl i C0 C1 En | cnt_facts cl i C0 CRet En]; fin Jcfg Inil Isb Iclose.
+      * (* C1 *) destruct cs eqn:Ecs; inv H; [cnt_facts cl i C1 C2 En | cnt_facts cl i C1 CRet En]; fin Jcfg Inil Isb Iclose.
+      * (* C2 *) inv H. cnt_facts cl i C2 CRet En. fin Jcfg Inil Isb Iclose.
+        intros _. right. left.
+        assert (1 <= cnt is_closepc cl) by (eapply (in_cntl_pos_c is_closepc); [eapply nth_error_In; eauto | reflexivity]).
+        lia.
+      * (* R0 *) destruct fr eqn:Efr; inv H; [cnt_facts cl i R0 R1 En | cnt_facts cl i R0 (RRet false) En]; fin Jcfg Inil Isb Iclose.
+      * (* R1 *) inv H. cnt_facts cl i R1 (RRet (negb (13 <=? mrank mn0))) En. fin Jcfg Inil Isb Iclose.
     + (* EH *)
       unfold step_eh in H; cbn in H.
       destruct eh0; try discriminate; cbn in H.
-      * destruct ms; [|discriminate]. inv H. constructor; t_fin.
-      * destruct es; [|discriminate]. inv H. constructor; t_fin.
-      * inv H. destruct (oEh c) eqn:Eo; constructor; t_fin.
+      * destruct ms; [|discriminate]. inv H. fin Jcfg Inil Isb Iclose.
+      * destruct es; [|discriminate]. inv H. fin Jcfg Inil Isb Iclose.
+      * inv H. destruct (oEh c) eqn:Eo; fin Jcfg Inil Isb Iclose.
       * inv H. rewrite ec_empty_finished by (cbn; lia).
-        destruct (agg_nonnil c) eqn:Ea; constructor; t_fin.
-      * inv H. destruct (oEh c) eqn:Eo; constructor; t_fin.
-      * inv H. unfold pcs_cfg_ok in Jcfg. constructor; t_fin.
-      * inv H. constructor; t_fin.
-      * inv H. constructor; t_fin.
+        destruct (agg_nonnil c) eqn:Ea; fin Jcfg Inil Isb Iclose.
+      * inv H. destruct (oEh c) eqn:Eo; fin Jcfg Inil Isb Iclose.
+      * inv H. fin Jcfg Inil Isb Iclose.
+      * inv H. fin Jcfg Inil Isb Iclose.
+      * inv H. fin Jcfg Inil Isb Iclose.
     + (* SD *)
       unfold step_sd in H; cbn in H.
       destruct sd0; try discriminate; cbn in H.
-      * destruct cd; [|discriminate]. inv H. destruct (oSd c) eqn:Eo; constructor; t_fin.
-      * inv H. destruct (oSd c) eqn:Eo; constructor; t_fin.
-      * inv H. destruct (oSd c) eqn:Eo; constructor; t_fin.
-      * inv H. unfold pcs_cfg_ok in Jcfg. destruct (oSd c) eqn:Eo; constructor; t_fin.
-      * inv H. constructor; t_fin.
-      * inv H. constructor; t_fin.
+      * destruct cd; [|discriminate]. inv H. destruct (oSd c) eqn:Eo; fin Jcfg Inil Isb Iclose.
+      * inv H. destruct (oSd c) eqn:Eo; fin Jcfg Inil Isb Iclose.
+      * inv H. destruct (oSd c) eqn:Eo; fin Jcfg Inil Isb Iclose.
+      * inv H. destruct (oSd c) eqn:Eo; fin Jcfg Inil Isb Iclose.
+      * inv H. fin Jcfg Inil Isb Iclose.
+      * inv H. fin Jcfg Inil Isb Iclose.
     + (* MAIN *)
       unfold step_main in H; cbn in H.
       destruct mn0; try discriminate; cbn in H.
-      * destruct (oRun c) eqn:Eo; cbn in H; try discriminate; inv H; constructor; t_fin.
-      * inv H. destruct (oRun c) eqn:Eo; constructor; t_fin.
-      * inv H. constructor; t_fin.
-      * inv H. destruct (oRun c) eqn:Eo; constructor; t_fin.
-      * destruct ss; [|discriminate]. inv H. constructor; t_fin.
-      * inv H. constructor; t_fin.
-      * destruct (oCl c) eqn:Eo; cbn in H; try discriminate; inv H; constructor; t_fin.
-      * inv H. destruct (oCl c) eqn:Eo; constructor; t_fin.
-      * inv H. destruct (oCl c) eqn:Eo; constructor; t_fin.
-      * inv H. constructor; t_fin; callers_tac.
-      * inv H. constructor; t_fin.
-      * inv H. constructor; t_fin.
-      * inv H. constructor; t_fin.
+      * destruct (oRun c) eqn:Eo; cbn in H; try discriminate; inv H; fin Jcfg Inil Isb Iclose; try solve [intros; left; lia].
+      * inv H. destruct (oRun c) eqn:Eo; fin Jcfg Inil Isb Iclose.
+      * inv H. fin Jcfg Inil Isb Iclose; try solve [intros; left; lia].
+      * inv H. destruct (oRun c) eqn:Eo; fin Jcfg Inil Isb Iclose.
+      * destruct ss; [|discriminate]. inv H. fin Jcfg Inil Isb Iclose.
+      * inv H. fin Jcfg Inil Isb Iclose.
+      * destruct (oCl c) eqn:Eo; cbn in H; try discriminate; inv H; fin Jcfg Inil Isb Iclose.
+      * inv H. destruct (oCl c) eqn:Eo; fin Jcfg Inil Isb Iclose.
+      * inv H. destruct (oCl c) eqn:Eo; fin Jcfg Inil Isb Iclose.
+      * inv H. fin Jcfg Inil Isb Iclose.
+      * inv H. fin Jcfg Inil Isb Iclose.
+      * inv H. fin Jcfg Inil Isb Iclose.
+      * inv H. fin Jcfg Inil Isb Iclose.
   - (* LBegin *)
     destruct p; cbn in H.
-    + destruct mn0; try discriminate. destruct (oRun c) eqn:Eo; cbn in H; try discriminate; inv H; constructor; t_fin.
-    + destruct sd0; try discriminate. inv H. unfold pcs_cfg_ok in Jcfg. destruct (oSd c) eqn:Eo; constructor; t_fin.
-    + destruct mn0; try discriminate. destruct (oCl c) eqn:Eo; cbn in H; try discriminate; inv H; constructor; t_fin.
-    + destruct eh0; try discriminate. inv H. unfold pcs_cfg_ok in Jcfg. destruct (oEh c) eqn:Eo; constructor; t_fin.
+    + destruct mn0; try discriminate. destruct (oRun c) eqn:Eo; cbn in H; try discriminate; inv H; fin Jcfg Inil Isb Iclose.
+    + destruct sd0; try discriminate. inv H. destruct (oSd c) eqn:Eo; fin Jcfg Inil Isb Iclose.
+    + destruct mn0; try discriminate. destruct (oCl c) eqn:Eo; cbn in H; try discriminate; inv H; fin Jcfg Inil Isb Iclose.
+    + destruct eh0; try discriminate. inv H. destruct (oEh c) eqn:Eo; fin Jcfg Inil Isb Iclose.
   - (* LEnd *)
     destruct p; cbn in H.
-    + destruct mn0; try discriminate. inv H. unfold pcs_cfg_ok in Jcfg. destruct (oRun c) eqn:Eo; constructor; t_fin.
-    + destruct sd0; try discriminate. inv H. unfold pcs_cfg_ok in Jcfg. destruct (oSd c) eqn:Eo; constructor; t_fin.
-    + destruct mn0; try discriminate. inv H. unfold pcs_cfg_ok in Jcfg. destruct (oCl c) eqn:Eo; constructor; t_fin.
-    + destruct eh0; try discriminate. inv H. constructor; t_fin.
+    + destruct mn0; try discriminate. inv H. destruct (oRun c) eqn:Eo; fin Jcfg Inil Isb Iclose.
+    + destruct sd0; try discriminate. inv H. destruct (oSd c) eqn:Eo; fin Jcfg Inil Isb Iclose.
+    + destruct mn0; try discriminate. inv H. destruct (oCl c) eqn:Eo; fin Jcfg Inil Isb Iclose.
+    + destruct eh0; try discriminate. inv H. fin Jcfg Inil Isb Iclose.
   - (* LRet *)
     unfold step_ret in H; cbn in H.
     destruct (nth_error cl i) as [pc|] eqn:En; [|discriminate].
@@ -303,15 +345,16 @@ Proof.
     destruct pc, r; try discriminate; cbn in H.
     + destruct r0, r; cbn in H; try discriminate; inv H;
         [cnt_facts cl i (SRet SNil) Gone En | cnt_facts cl i (SRet SAlready) Gone En | cnt_facts cl i (SRet SReturned) Gone En];
-        constructor; t_fin; try callers_tac.
-    + destruct (wres_eqb r0 r); [|discriminate]. inv H. cnt_facts cl i (WRet r0) Gone En. constructor; t_fin; callers_tac.
-    + inv H. cnt_facts cl i CRet Gone En. constructor; t_fin; callers_tac.
-    + destruct (Bool.eqb b0 b1); [|discriminate]. inv H. cnt_facts cl i (RRet b0) Gone En. constructor; t_fin; callers_tac.
+        fin Jcfg Inil Isb Iclose; cbn in Hs; intros _;
+        first [ solve [subst b; cbn; lia] | solve [clear - Hs Jmn0; destruct b; cbn in *; lia] ].
+    + destruct (wres_eqb r0 r); [|discriminate]. inv H. cnt_facts cl i (WRet r0) Gone En. fin Jcfg Inil Isb Iclose.
+    + inv H. cnt_facts cl i CRet Gone En. fin Jcfg Inil Isb Iclose.
+    + destruct (Bool.eqb b0 b1); [|discriminate]. inv H. cnt_facts cl i (RRet b0) Gone En. fin Jcfg Inil Isb Iclose.
   - (* LYield *)
     destruct h.
-    + destruct (nth_error cl i) as [[]|]; try discriminate. inv H. constructor; t_fin.
-    + destruct (nth_error cl i) as [[]|]; try discriminate. destruct b; try discriminate. inv H. constructor; t_fin.
-  - (* LYieldMain *) destruct mn0; try discriminate. inv H. constructor; t_fin.
+    + destruct (nth_error cl i) as [[]|]; try discriminate. inv H. fin Jcfg Inil Isb Iclose.
+    + destruct (nth_error cl i) as [[]|]; try discriminate. destruct b; try discriminate. inv H. fin Jcfg Inil Isb Iclose.
+  - (* LYieldMain *) destruct mn0; try discriminate. inv H. fin Jcfg Inil Isb Iclose.
   - (* LParentCancel *)
-    destruct cs; inv H; constructor; t_fin; intros; lia.
+    destruct cs; inv H; fin Jcfg Inil Isb Iclose; intros; try (right; right); lia.
 Qed.
